@@ -260,7 +260,15 @@ def station_load(ctx: Ctx):
         n += 1
         sid = f"{rep}.report['station_id']"
         want = f"{acc}.update({{{sid}: ({acc}.get({sid}, (0.0, ''))[0] + float({rep}.report['energy']), {rep}.report['energy_units'])}})"
-        ctx.check(flow.dump(p.value) == want, "D2", "EV.station-load", "station load = running per-station sum of this step's charge-event energies", add, p.end,
+        # the same sum written as a case split on `sid in acc`: the running total where the station is known, 0.0 where it is not
+        known = (f"{sid} in {acc}", True) in facts
+        unknown = (f"{sid} in {acc}", False) in facts
+        alt = None
+        if known:
+            alt = f"{acc}.update({{{sid}: ({acc}[{sid}][0] + float({rep}.report['energy']), {rep}.report['energy_units'])}})"
+        elif unknown:
+            alt = f"{acc}.update({{{sid}: (0.0 + float({rep}.report['energy']), {rep}.report['energy_units'])}})"
+        ctx.check(flow.dump(p.value) in (want, alt), "D2", "EV.station-load", "station load = running per-station sum of this step's charge-event energies", add, p.end,
                   why_bad=f"accumulator update is {flow.dump(p.value)[:260]}", construct="_add:sum")
     ctx.require(n >= 1, "construct_station_load_events._add: summing path not found")
     reps = outer.params[0]
